@@ -832,6 +832,127 @@ def check_codes(ctx, stream, exprs, validate=True):
                                 'encoder': r['enc'], 'decoder': r['dec']})
 
 
+LARGE_SIZES = (16, 17, 20, 33)
+
+
+def large_codes():
+    out = []
+    for n in LARGE_SIZES:
+        out += [['jw', n], ['bk', n], ['parity', n], ['checksum', n, False], ['checksum', n, True]]
+        if n % 2 == 0:
+            out.append(['interleaved', n])
+    out += [['interleaved', 34], ['w1ba', 4], ['w1ba', 5]]
+    return out
+
+
+def sample_domain(rng, e, count):
+    """random occupation masks of the documented domain of a (large) built-in code"""
+    k = e[0]
+    if k == 'w1ba':
+        return [1 << i for i in range(2 ** e[1])]
+    n = e[1]
+    out = set()
+    # structured vectors first: empty, full, single modes around the powers of two, then random ones
+    cands = [0, (1 << n) - 1] + [1 << i for i in range(n)]
+    while len(cands) < count:
+        cands.append(rng.getrandbits(n))
+    for v in cands:
+        if k == 'checksum' and popcount(v) % 2 != (1 if e[2] else 0):
+            v ^= 1 << rng.randrange(n)
+        out.add(v)
+    return sorted(out)
+
+
+def check_large_codes(ctx, stream):
+    """parametrised codes at n in {16, 17, 20, 33}: beyond the first sizes at which the loops of
+    _encoder_bk / _decoder_bk (repetition >= 3) and the other constructors could differ"""
+    of = ctx.of
+    rng = rng_for(ctx.seed, 'c09-large')
+    exprs = large_codes()
+    model = ctx.driver.run([{'op': 'c09.code', 'expr': enc_cexpr(e)} for e in exprs])
+    oracle = []
+    for e, mo in zip(exprs, model):
+        case = {'code': e}
+        stream.case(case)
+        stream.count('large:' + e[0])
+        try:
+            a = code_json(build_impl(of, e))
+        except Exception as ex:  # noqa: BLE001
+            stream.violate('building the code raised %s' % errname(ex), case, {'expr': e, 'error': errname(ex)})
+            continue
+        if 'error' in mo:
+            stream.disagree('model raises', case, a, mo)
+        elif canon_code(a) != canon_code(mo):
+            stream.disagree('encoder / decoder', case, {'nq': a['nq'], 'nm': a['nm']}, {'nq': mo['nq'], 'nm': mo['nm']})
+        if any(isinstance(d, str) for d in a['dec']):
+            stream.violate('decoder component is not a BinaryPolynomial', case, {'expr': e, 'decoder': a['dec']})
+            continue
+        nm, nq = sizes(e)
+        if (nm, nq) != (a['nm'], a['nq']):
+            stream.violate('code has the wrong shape', case, {'expr': e, 'expected': [nm, nq], 'got': [a['nm'], a['nq']]})
+            continue
+        if e[0] == 'interleaved':
+            n = e[1]
+            for m in range(n):
+                if encode_mask(a['enc'], 1 << m) != 1 << (m // 2 if m % 2 == 0 else n // 2 + m // 2):
+                    stream.violate('interleaved_code does not map mode %d to the documented qubit' % m, case,
+                                   {'expr': e, 'encoder': a['enc']})
+                    break
+        dom = sample_domain(rng, e, budget(ctx.tier, 300, 2000))
+        oracle.append((case, e, {'op': 'c09.spec_valid', 'enc': a['enc'], 'dec': a['dec'], 'dom': dom}))
+        stream.count('domain-vectors', len(dom))
+    for (case, e, r), ans in zip(oracle, ctx.driver.run([r for _, _, r in oracle])):
+        stream.count('oracle:checked')
+        if not ans['ok']:
+            stream.violate('decode(encode v) != v or encoding not injective on the domain', case,
+                           {'expr': e, 'v_mask': ans['v'], 'encoded_mask': ans['w'], 'decoded_or_clash': ans['d']})
+
+
+def check_large_transform(ctx, stream):
+    """binary_code_transform with the JW / BK codes at n in {16, 17, 20, 33} on operators touching
+    mode 15 and a mode >= 16: compared with the Model and term for term with jordan_wigner / bravyi_kitaev"""
+    of = ctx.of
+    from openfermion.transforms.opconversions.binary_code_transform import binary_code_transform
+    rng = rng_for(ctx.seed, 'c09-large-bct')
+    cases = []
+    for n in LARGE_SIZES:
+        hi = [m for m in range(16, n)] or [15]
+        for kind in ('jw', 'bk'):
+            ops = [{((15, 1), (rng.choice(hi), 0)): 1.0, ((rng.choice(hi), 1), (15, 0)): dyadic(rng, max_num=4, max_pow=2)},
+                   {((rng.choice(hi), 1), (15, 1), (rng.randrange(n), 0), (rng.randrange(n), 0)): dyadic(rng, max_num=4, max_pow=2)},
+                   {((15, 1), (15, 0)): 0.5, ((n - 1, 1), (n - 1, 0)): -1.0, ((n - 1, 1),): 0.25}]
+            for f in ops:
+                cases.append(([kind, n], {t: c for t, c in f.items() if c != 0}))
+    model = ctx.driver.run([{'op': 'c09.bct', 'expr': enc_cexpr(e), 'f': enc_op('fermion', f)} for e, f in cases])
+    codes = {}
+    for (e, f), mo in zip(cases, model):
+        case = {'code': e, 'fermion_op': [[list(map(list, t)), to_gq(c)] for t, c in f.items()]}
+        stream.case(case)
+        stream.count('large:' + e[0])
+        key = show(e)
+        try:
+            if key not in codes:
+                codes[key] = build_impl(of, e)
+            H = of.FermionOperator()
+            for t, c in f.items():
+                H += of.FermionOperator(t, c)
+            q = binary_code_transform(H, codes[key])
+        except Exception as ex:  # noqa: BLE001
+            stream.violate('binary_code_transform raised %s' % errname(ex), case, {'expr': e, 'error': errname(ex)})
+            continue
+        a = enc_op('qubit', q.terms)
+        if 'error' in mo:
+            stream.disagree('model raises', case, a, mo)
+        elif canon_op_json(a) != canon_op_json(mo['q']):
+            stream.disagree('transformed operator', case, a, mo)
+        ref = of.jordan_wigner(H) if e[0] == 'jw' else of.bravyi_kitaev(H, n_qubits=e[1])
+        stream.count('term-for-term:' + e[0])
+        if canon_qop(ref.terms) != canon_qop(q.terms):
+            stream.violate('binary_code_transform with the %s code differs term for term from %s'
+                           % (e[0], 'jordan_wigner' if e[0] == 'jw' else 'bravyi_kitaev'), case,
+                           {'transform': a, 'reference': enc_op('qubit', ref.terms)})
+
+
 # ------------------------------------------------------------------ binary_code_transform
 
 def rand_term(rng, lo, n, flavour):
@@ -1070,7 +1191,8 @@ def run(ctx):
     sc = Stream('codes',
                 'every built-in code at every size (jw/bk/parity 1..8, checksum 2..8 even/odd, interleaved 2..8, '
                 'binary addressing 1..3, both segment codes; up to 12 in thorough), a fixed list of special '
-                'expressions and seeded random expressions over +, int *, concatenation * with <= 10 modes; '
+                'expressions and seeded random expressions over +, int *, concatenation * with <= 10 modes; every parametrised code also at '
+                'n in {16, 17, 20, 33} (encoder / decoder against the Model, decode(encode v) on structured + random vectors); '
                 'Spec oracle = decode(encode v) = v and injectivity over the whole domain (sampled above 4096 vectors); '
                 'distinct = distinct expressions')
     check_codes(ctx, sc, base_codes(ctx.tier, ctx.drift))
@@ -1085,6 +1207,7 @@ def run(ctx):
         if e is not None and e[0] in ('add', 'mulint', 'concat'):
             exprs.append(e)
     check_codes(ctx, sc, exprs)
+    check_large_codes(ctx, sc)
     sc.exhaustive = False
     streams.append(sc)
 
@@ -1092,7 +1215,8 @@ def run(ctx):
                 'binary_code_transform(op, code) for built-in codes (<= 8 modes), special and random code expressions '
                 'with random operators of the flavour that preserves the domain (any / even length / number conserving / '
                 'lowering), 1-3 terms, dyadic coefficients; Spec oracle = action on every encoded domain state; JW / BK '
-                'codes additionally compared term for term with jordan_wigner / bravyi_kitaev; distinct = distinct (code, operator)')
+                'codes additionally compared term for term with jordan_wigner / bravyi_kitaev, also at n in {16, 17, 20, 33} on operators '
+                'touching mode 15 and modes >= 16; distinct = distinct (code, operator)')
     rng = rng_for(ctx.seed, 'c09-bct')
     cases = []
     per_code = budget(ctx.tier, 6, 40)
@@ -1120,5 +1244,6 @@ def run(ctx):
             if f:
                 cases.append((e, f))
     check_transform(ctx, st, cases)
+    check_large_transform(ctx, st)
     streams.append(st)
     return streams
